@@ -33,6 +33,8 @@ def run_check(prop, tier, out=print):
             cv = validate(prop)
             cv.pop("details", None)
             run.extra["checker_validation"] = cv
+            from .mutants import validate_patches
+            run.extra["checker_validation_patches"] = validate_patches(prop)
         return run.finish(out)
     except AnalysisIncomplete as e:
         out(f"ANALYSIS-INCOMPLETE property={prop} {e}")
